@@ -179,3 +179,794 @@ def replay_C05(report, path):
     import json
     r = json.load(open(path))
     print(json.dumps(r, indent=1)[:2000])
+
+
+# =====================================================================================
+# reactive cases: real client and model client each against (a copy of) the reference server
+# =====================================================================================
+
+class Reactive:
+    def __init__(self, drv, rng, sasl_pre=b"PLAIN", sasl_post=None, starttls=False, version=False,
+                 login=b"user", password=b"secret", maxsize=100000, maxscripts=50, eol=True,
+                 store=(), active=None, choices=None, faults=(), segment=None, tls_fails=False,
+                 refuse_connect=False):
+        self.drv = drv
+        if choices is None:
+            choices = [rng.randrange(0, 8) for _ in range(60)]
+        self.cfg = dict(sasl_pre=sasl_pre, sasl_post=sasl_post if sasl_post is not None else sasl_pre,
+                        starttls=starttls, version=version, login=login, password=password,
+                        maxsize=maxsize, maxscripts=maxscripts, eol=eol, store=list(store), active=active,
+                        choices=list(choices), faults=list(faults), tls_fails=tls_fails)
+        c = self.cfg
+        drv.ask("srv_new %s %s %d %d %s %s %d %d %d %s %s %s %s" % (
+            hx(c["sasl_pre"]), hx(c["sasl_post"]), c["starttls"], c["version"], hx(login), hx(password),
+            maxsize, maxscripts, 1 if eol else 0,
+            ",".join("%s:%s" % (hx(k), hx(v)) for k, v in store) if store else "-",
+            hx(active), ",".join(map(str, choices)) if choices else "-",
+            ",".join("%d:%s" % f for f in faults) if faults else "-"))
+        self.net = I.Net(driver=drv, segment=segment, tls_fails=tls_fails, refuse_connect=refuse_connect)
+        self.sess = I.Session(self.net)
+
+    def both(self, op):
+        """Run op on the implementation and on the model; return (impl, model, detail)."""
+        impl, detail = self.sess.call(op)
+        if self.cfg["tls_fails"] and op[0] == "connect":
+            # the model's TLS oracle is the server's srv_tls; a failing handshake is only run on the implementation
+            return impl, None, detail
+        model = I.canon_model(self.drv.ask("model_op " + I.op_tokens(op)))
+        return impl, model, detail
+
+    def dump(self, which="srv"):
+        line = self.drv.ask(which + "_dump")
+        d = dict(kv.split("=", 1) for kv in line.split(" "))
+        store = []
+        if d["store"] != "-":
+            for kv in d["store"].split(","):
+                k, v = kv.split(":")
+                store.append((unhx(k), unhx(v)))
+        return {"store": store, "active": unhx(d["active"]), "bad": int(d["bad"]), "authed": d["authed"] == "1",
+                "tls": d["tls"] == "1", "count": int(d["count"])}
+
+    def describe(self):
+        c = dict(self.cfg)
+        for k in ("sasl_pre", "sasl_post", "login", "password", "active"):
+            c[k] = repr(c[k])
+        c["store"] = [(repr(k), repr(v)) for k, v in c["store"]]
+        return c
+
+    def close(self):
+        self.sess.close()
+
+
+def norm_lines(b):
+    """Script comparison of C14/C17: line by line, ignoring line-ending style and trailing blank lines."""
+    lines = b.splitlines()
+    while lines and lines[-1] == b"":
+        lines.pop()
+    return lines
+
+
+def random_segmenter(rng):
+    mode = rng.choice(["whole", "whole", "fixed1", "fixed3", "fixed7", "rand"])
+    if mode == "whole":
+        return None
+    if mode.startswith("fixed"):
+        k = int(mode[5:])
+        return lambda data, n: G.fixed_chunks(data, k)
+    seed = rng.randrange(1 << 30)
+
+    def seg(data, n):
+        import random as _r
+        r = _r.Random(seed * 1000003 + n)
+        cuts = [r.randrange(1, max(2, len(data))) for _ in range(r.randrange(0, 6))]
+        return G.cuts_to_chunks(data, cuts)
+    return seg
+
+
+# ------------------------------------------------------------------ C08
+
+VALUE_ATOMS = ["a", "", 'q"uote', "back\\slash", "\r\nLOGOUT", "x\ny", "nul\0in", "{5}", "{5+}", "{5+}\r\nabcde",
+               "café", "日本", "sp ace", '"', "\\", '\\"', "a\rb", "}{", "\U0001f600", "x" * 300,
+               '" "b', "OK", "(x)", "tab\t", "\x7f", "a" * 1030]
+
+
+def gen_value(rng):
+    if rng.random() < 0.7:
+        return rng.choice(VALUE_ATOMS)
+    atoms = ["a", '"', "\\", "\r", "\n", "\0", "{", "}", "+", "1", " ", "é", "\r\n"]
+    return "".join(rng.choice(atoms) for _ in range(rng.randrange(0, 9)))
+
+
+def check_C08(report, tier, seed, replay=None):
+    rng = common.rng_for(seed, "C08")
+    drv = common.Driver("ms")
+    report.rule = ("operation x argument values (names/contents over unicode text with quotes, backslashes, CR, LF, NUL, "
+                   "braces, {n}/{n+} look-alikes, multi-byte, empty; sizes up to 2^61): bytes written by the real client "
+                   "are parsed by the extracted strict RFC 5804 parser and compared with the intended verb/arguments; "
+                   "non-trivial = some argument contains a byte outside [A-Za-z0-9 ]")
+    n = 1500 if tier == "quick" else 40000
+    kinds = ["havespace", "getscript", "putscript", "deletescript", "setactive", "renamescript", "checkscript",
+             "listscripts", "capability", "logout"]
+    for i in range(n):
+        kind = kinds[i % len(kinds)]
+        v1, v2 = gen_value(rng), gen_value(rng)
+        size = rng.choice([0, 1, 7, 1000, 2 ** 31, 2 ** 61, rng.randrange(0, 10 ** 9)])
+        if kind == "havespace":
+            op, want = ("havespace", v1.encode(), size), ("HAVESPACE", ["s:" + hx(v1.encode()), "n:%d" % size])
+        elif kind in ("getscript", "deletescript", "setactive"):
+            op, want = (kind, v1.encode()), (kind.upper(), ["s:" + hx(v1.encode())])
+        elif kind == "putscript":
+            op, want = (kind, v1.encode(), v2.encode()), ("PUTSCRIPT", ["s:" + hx(v1.encode()), "s:" + hx(v2.encode())])
+        elif kind == "renamescript":
+            op, want = (kind, v1.encode(), v2.encode()), ("RENAMESCRIPT", ["s:" + hx(v1.encode()), "s:" + hx(v2.encode())])
+        elif kind == "checkscript":
+            op, want = (kind, v2.encode()), ("CHECKSCRIPT", ["s:" + hx(v2.encode())])
+        else:
+            op, want = (kind,), (kind.upper(), [])
+        version = kind in ("renamescript", "checkscript")
+        sess = I.canned_session([b"OK\r\n"], version=version)
+        out, detail = sess.call(op)
+        sent = b"".join(e[3] for e in sess.net.log if e[0] == "S")
+        nsends = sum(1 for e in sess.net.log if e[0] == "S")
+        sess.close()
+        nontriv = any(not (chr(c).isalnum() or c == 32) for a in op[1:] if isinstance(a, bytes) for c in a)
+        report.case((op,), nontriv, {"op": [repr(x) for x in op], "sent": repr(sent)[:200]})
+        report.count("op:" + kind)
+        # correspondence: bytes written
+        mod = run_model_canned(drv, [op], [b"OK\r\n"], version)
+        msent = b"".join(unhx(t.split(":", 2)[2]) for t in mod[1].split(" ") if t.startswith("S")) if mod[1] != "-" else b""
+        if msent != sent or mod[0][0] != out:
+            report.broke("correspondence C08 (bytes written by model vs client)",
+                         "op=%r model=%r/%r impl=%r/%r" % (op, mod[0][0], msent, out, sent), {"op": [repr(x) for x in op]})
+        # direct oracle
+        if out.startswith("F:Error") and not sent:
+            report.count("refused-before-writing")
+            continue
+        parsed = drv.ask("parse_cmd " + hx(sent))
+        expect = "cmd %s %s rest=x" % (hx(want[0].encode()), ",".join(want[1]) if want[1] else "-")
+        if parsed != expect:
+            report.violation("bytes on the wire are not exactly the intended command: %r sent %r (strict parse: %s, expected %s)"
+                             % (op, sent, parsed, expect),
+                             {"property": "C08", "op": [repr(x) for x in op], "sent": hx(sent)})
+    drv.close()
+
+
+# ------------------------------------------------------------------ C09
+
+def expected_simple(ab):
+    """Expected projection for a one-reply operation given the abstract status reply."""
+    st = ab["status"]
+    if st == "OK":
+        return "ok", None, None
+    if st == "BYE":
+        return "error", None, None
+    return "no", ab["code"] or b"", ab["text"] if ab["text"] is not None else b""
+
+
+def check_C09(report, tier, seed, replay=None):
+    rng = common.rng_for(seed, "C09")
+    drv = common.Driver("ms")
+    report.rule = ("operation x final status reply generated from the RFC 5804 response grammar (OK/NO/BYE, with/without "
+                   "response code incl. slashes and quoted parameters, with/without text, quoted or literal), also at each "
+                   "step of the emulated rename and of connect; non-trivial = reply has a code or a text")
+    n = 1200 if tier == "quick" else 30000
+    simple = [("havespace", b"n", 10), ("putscript", b"n", b"keep;\r\n"), ("deletescript", b"n"), ("setactive", b"n"),
+              ("checkscript", b"keep;"), ("renamescript", b"a", b"b"), ("listscripts",), ("getscript", b"n")]
+    for i in range(n):
+        op = simple[i % len(simple)]
+        rb, ab = G.gen_status(rng)
+        pre = b""
+        if ab["status"] == "OK" and op[0] == "listscripts":
+            pre = b'"a"\r\n"b" ACTIVE\r\n'
+        if ab["status"] == "OK" and op[0] == "getscript":
+            pre = b"{6}\r\nkeep;\n\r\n"
+        version = op[0] in ("checkscript", "renamescript")
+        stream = pre + rb + SENT_REPLIES
+        ops = [op, SENT1, SENT2, SENT3]
+        got = run_impl_canned(ops, [stream], version)
+        mod = run_model_canned(drv, ops, [stream], version)
+        nontriv = ab["code"] is not None or ab["text"] is not None
+        report.case((op, rb), nontriv, {"op": op[0], "reply": repr(rb), "impl": got[0][0]})
+        report.count("status:" + ab["status"])
+        report.count("shape:%s%s" % ("code" if ab["code"] else "nocode", ("+" + ab["enc"]) if ab["text"] is not None else ""))
+        if mod != got:
+            report.broke("correspondence C09 (model vs client on status replies)",
+                         "op=%r reply=%r model=%r impl=%r" % (op, rb, mod[0], got[0]), {"op": [repr(x) for x in op], "stream": hx(stream)})
+        kind, code, text = expected_simple(ab)
+        out = got[0][0]
+        head, rest = out.split(" ", 1)
+        fields = dict(kv.split("=") for kv in rest.split(" "))
+        ok = True
+        if kind == "ok":
+            if op[0] == "listscripts":
+                ok = head == "D:l:%s:%s" % (hx(b"b"), hx(b"a"))
+            elif op[0] == "getscript":
+                ok = head == "D:b:" + hx(b"keep;")
+            else:
+                ok = head == "D:true"
+        elif kind == "error":
+            ok = head == "F:Error"
+        else:
+            want_head = "D:none" if op[0] in ("listscripts", "getscript") else "D:false"
+            ok = head == want_head and fields["errcode"] in (hx(code), "-" if code == b"" else hx(code)) and fields["errmsg"] == hx(text)
+        # the sentinels must see their own replies (the status reply was consumed exactly) unless BYE ended the session
+        if kind != "error":
+            ok = ok and got[0][1].startswith("D:false") and ("errcode=" + hx(b"S1")) in got[0][1] \
+                and got[0][2].startswith("D:true") and got[0][3].startswith("D:b:x ")
+        if not ok:
+            report.violation("result does not mirror the status reply: %s on %r gives %r" % (op[0], rb, got[0]),
+                             {"property": "C09", "op": [repr(x) for x in op], "stream": hx(stream), "version": version})
+    # NO / BYE at each step of the emulated rename
+    for i in range(40 if tier == "quick" else 600):
+        step = rng.randrange(0, 5)
+        status = rng.choice([b"NO", b"BYE"])
+        active = rng.choice([b"old", None])
+        replies = [b'"old"' + (b" ACTIVE" if active == b"old" else b"") + b'\r\n"other"\r\n' + G.gen_status(rng, b"OK")[0],
+                   b"{5}\r\nkeep;\r\n" + G.gen_status(rng, b"OK")[0],
+                   G.gen_status(rng, b"OK")[0]]
+        if active == b"old":
+            replies.append(G.gen_status(rng, b"OK")[0])
+        replies.append(G.gen_status(rng, b"OK")[0])
+        step = step % len(replies)
+        fb, fab = G.gen_status(rng, status)
+        stream = b"".join(replies[:step]) + fb
+        ops = [("renamescript", b"old", b"new")]
+        if status == b"NO":
+            stream += SENT_REPLIES
+            ops += [SENT1, SENT2, SENT3]
+        got = run_impl_canned(ops, [stream], False)
+        mod = run_model_canned(drv, ops, [stream], False)
+        report.case(("rename-step", step, fb, active), True)
+        report.count("rename-step:%d:%s" % (step, status.decode()))
+        if mod != got:
+            report.broke("correspondence C09 (emulated rename with failing step)", "model=%r impl=%r" % (mod[0], got[0]),
+                         {"stream": hx(stream)})
+        head = got[0][0].split(" ")[0]
+        want = "F:Error" if status == b"BYE" else "D:false"
+        good = head == want
+        if status == b"NO":
+            kind, code, text = expected_simple(fab)
+            f = dict(kv.split("=") for kv in got[0][0].split(" ", 1)[1].split(" "))
+            good = good and f["errcode"] == hx(code) and f["errmsg"] == hx(text) and got[0][3].startswith("D:b:x ")
+        if not good:
+            report.violation("emulated rename does not mirror %s at step %d: %r" % (status.decode(), step, got[0]),
+                             {"property": "C09", "stream": hx(stream), "op": "renamescript old new (no VERSION)"})
+    drv.close()
+
+
+# ------------------------------------------------------------------ C14
+
+def rename_oracle(before, after, old, new, result_head):
+    """The statement of C14 on (server state before, after, call result). Returns a list of complaints."""
+    bad = []
+    b = dict(before["store"])
+    a = dict(after["store"])
+    for name, content in b.items():
+        if name == old:
+            continue
+        if name not in a:
+            bad.append("script %r lost" % name)
+        elif a[name] != content:
+            bad.append("script %r modified (existing target overwritten)" % name if name == new else "script %r modified" % name)
+    if old in b:
+        keep = [n for n in (old, new) if n in a and norm_lines(a[n]) == norm_lines(b[old])]
+        if new in b:
+            keep = [n for n in keep if n == old]
+        if not keep:
+            bad.append("content of %r no longer present under old or new name" % old)
+    for name in a:
+        if name not in b and name != new:
+            bad.append("unexpected new script %r" % name)
+    if result_head == "D:true":
+        if old in a and old != new:
+            bad.append("returned True but old name still exists")
+        if new not in a or old not in b or norm_lines(a[new]) != norm_lines(b[old]):
+            bad.append("returned True but new name does not hold the old content")
+        if (before["active"] == old) != (after["active"] == new):
+            bad.append("returned True but active status not carried over")
+    elif result_head not in ("D:false", "F:Error"):
+        bad.append("failure surfaced as %s" % result_head)
+    if before["active"] is not None and before["active"] != old and after["active"] != before["active"]:
+        bad.append("active script changed from %r to %r" % (before["active"], after["active"]))
+    return bad
+
+
+def check_C14(report, tier, seed, replay=None):
+    rng = common.rng_for(seed, "C14")
+    drv = common.Driver("ms")
+    report.rule = ("emulated rename (server without VERSION): initial state {old absent, present, active} x {new absent, "
+                   "present, active} x other scripts x fault {none, NO, BYE, silence} at each of the five commands x bodies "
+                   "(LF/CRLF/CR, no final newline, protocol look-alikes), enumerated exhaustively; reference server = extracted "
+                   "Coq server; non-trivial = old exists")
+    bodies = [b"keep;\r\n", b"a\nb", b"OK\r\n{5}\r\nNO \"x\"\r\n", b"", b'if true { discard; }\r\n\r\n', b"x\ry"]
+    if tier != "quick":
+        bodies += [G.gen_body(rng) for _ in range(6)]
+    olds = ["absent", "present", "active"]
+    news = ["absent", "present", "active"]
+    faults = [None] + [(step, kind) for step in range(5) for kind in ("no", "bye", "silent")]
+    for ostate, nstate, fault, body in itertools.product(olds, news, faults, bodies):
+        if ostate == "active" and nstate == "active":
+            continue
+        for same in ([False, True] if (ostate == nstate and ostate == "present" and fault is None) else [False]):
+            store = [(b"other", b"discard;\r\n")]
+            active = None
+            old, new = b"old", (b"old" if same else b"new")
+            if ostate != "absent":
+                store.append((old, body))
+            if nstate != "absent" and not same:
+                store.insert(0, (new, b"# target\r\nstop;\r\n"))
+            if ostate == "active":
+                active = old
+            if nstate == "active":
+                active = new
+            fl = [(1 + fault[0], fault[1])] if fault else []
+            rc = Reactive(drv, rng, store=store, active=active, faults=fl, segment=random_segmenter(rng))
+            ci, cm, _ = rc.both(("connect", b"user", b"secret", b"", False, None))
+            before = rc.dump()
+            ri, rm, detail = rc.both(("renamescript", old, new))
+            after = rc.dump()
+            mafter = rc.dump("model")
+            rc.close()
+            report.case((ostate, nstate, fault, body, same), ostate != "absent",
+                        {"old": ostate, "new": nstate, "fault": fault, "body": repr(body), "result": ri})
+            report.count("fault:%s" % (fault[1] if fault else "none"))
+            report.count("result:" + ri.split(" ")[0])
+            desc = {"property": "C14", "server": rc.describe(), "op": "renamescript %r %r" % (old, new)}
+            if ci != cm or ri != rm or after["store"] != mafter["store"] or after["active"] != mafter["active"]:
+                report.broke("correspondence C14 (model client vs real client against the reference server)",
+                             "impl=%r model=%r impl-store=%r model-store=%r" % (ri, rm, after, mafter), desc)
+            complaints = rename_oracle(before, after, old, new, ri.split(" ")[0])
+            if after["bad"]:
+                complaints.append("server saw %d malformed/illegal command(s)" % after["bad"])
+            if complaints:
+                report.violation("emulated rename: %s (old %s, new %s, fault %s, body %r, result %s)"
+                                 % ("; ".join(complaints), ostate, nstate, fault, body, ri), desc)
+    drv.close()
+
+
+# ------------------------------------------------------------------ C17
+
+def check_C17(report, tier, seed, replay=None):
+    rng = common.rng_for(seed, "C17")
+    drv = common.Driver("ms")
+    report.rule = ("server stores from name/body generators biased to protocol look-alikes (OK/NO/BYE, {n}, ACTIVE, quotes), "
+                   "CR/LF variations, multi-byte text; each value served by the reference server quoted or literal as "
+                   "chosen by the seed, with and without the CRLF after a script literal, under random segmentation; "
+                   "getscript compared line by line, listscripts exactly; non-trivial = name/body not purely alphanumeric")
+    n = 250 if tier == "quick" else 6000
+    for i in range(n):
+        names = G.gen_names(rng, 5)
+        names = [x for x in names if x and b"\r" not in x and b"\n" not in x and b"\0" not in x]
+        store = [(nm, G.gen_body(rng)) for nm in names]
+        active = rng.choice(names + [None]) if names else None
+        rc = Reactive(drv, rng, store=store, active=active, eol=rng.random() < 0.85, segment=random_segmenter(rng))
+        rc.both(("connect", b"user", b"secret", b"", False, None))
+        li, lm, _ = rc.both(("listscripts",))
+        desc = {"property": "C17", "server": rc.describe()}
+        want = "D:l:%s:%s" % (hx(active), ",".join(hx(x) for x in names if x != active) if [x for x in names if x != active] else "-")
+        nontriv = any(not x.isalnum() for x in names)
+        report.case(("list", tuple(names), active, tuple(rc.cfg["choices"][:8])), nontriv,
+                    {"names": [repr(x) for x in names], "active": repr(active), "listscripts": li})
+        if li != lm:
+            report.broke("correspondence C17 (listscripts: model vs client)", "impl=%r model=%r" % (li, lm), desc)
+        if li.split(" ")[0] != want:
+            report.violation("listscripts returned %s, server holds %s" % (li.split(" ")[0], want), dict(desc, op="listscripts"))
+        for nm, body in store:
+            gi, gm, _ = rc.both(("getscript", nm))
+            report.case(("get", nm, body, rc.cfg["eol"]), True)
+            report.count("body-lines:%d" % min(len(norm_lines(body)), 6))
+            if gi != gm:
+                report.broke("correspondence C17 (getscript: model vs client)", "impl=%r model=%r body=%r" % (gi, gm, body), desc)
+            head = gi.split(" ")[0]
+            got = unhx(head[4:]) if head.startswith("D:b:") else None
+            if got is None or norm_lines(got) != norm_lines(body):
+                report.violation("getscript(%r) returned %r, server holds %r" % (nm, got if got is not None else head, body),
+                                 dict(desc, op="getscript %r" % nm))
+        d = rc.dump()
+        if d["bad"]:
+            report.violation("server saw malformed/illegal commands", desc)
+        rc.close()
+    drv.close()
+
+
+# ------------------------------------------------------------------ C15
+
+NAME_POOL = [b"a", b"b", b'q"x', b"{3}", b"OK", b"caf\xc3\xa9 x"]
+
+
+def abstract_answer(op, st):
+    """What a conforming server in state st (dump) answers, as the client-visible result head."""
+    store = dict(st["store"])
+    names = [k for k, _ in st["store"]]
+    if op[0] == "listscripts":
+        others = [x for x in names if x != st["active"]]
+        return "D:l:%s:%s" % (hx(st["active"]), ",".join(hx(x) for x in others) if others else "-")
+    if op[0] == "getscript":
+        return ("script", store[op[1]]) if op[1] in store else "D:none"
+    return None
+
+
+def check_C15(report, tier, seed, replay=None):
+    rng = common.rng_for(seed, "C15")
+    drv = common.Driver("ms")
+    report.rule = ("sessions of 1-30 operations over a small name pool against the extracted reference server, which "
+                   "chooses reply encodings (quoted/literal), optional texts, NO outcomes permitted by its state (quota, "
+                   "nonexistent, active, already exists) from the seed, under random recv segmentation; after every step: "
+                   "real client vs model client vs the server's abstract state; non-trivial = session longer than 3 steps")
+    n = 120 if tier == "quick" else 4000
+    for i in range(n):
+        version = rng.random() < 0.5
+        store = [(nm, G.gen_body(rng)) for nm in rng.sample(NAME_POOL, rng.randrange(0, 4))]
+        active = rng.choice([k for k, _ in store] + [None]) if store else None
+        rc = Reactive(drv, rng, version=version, store=store, active=active, maxsize=rng.choice([30, 100000]),
+                      maxscripts=rng.choice([2, 50]), eol=rng.random() < 0.8, segment=random_segmenter(rng),
+                      choices=[rng.randrange(0, 8) for _ in range(400)])
+        steps = rng.randrange(1, 31)
+        ops = [("connect", b"user", b"secret", b"", False, None)]
+        for _ in range(steps):
+            k = rng.choice(["listscripts", "getscript", "putscript", "deletescript", "setactive", "renamescript",
+                            "havespace", "checkscript", "capability", "listscripts", "getscript"])
+            nm, nm2 = rng.choice(NAME_POOL), rng.choice(NAME_POOL)
+            if k in ("getscript", "deletescript"):
+                ops.append((k, nm))
+            elif k == "setactive":
+                ops.append((k, rng.choice([nm, b""])))
+            elif k == "putscript":
+                ops.append((k, nm, G.gen_body(rng).decode("utf-8", "replace").encode("utf-8")))
+            elif k == "renamescript":
+                ops.append((k, nm, nm2))
+            elif k == "havespace":
+                ops.append((k, nm, rng.choice([1, 50, 10 ** 7])))
+            elif k == "checkscript":
+                if version:
+                    ops.append((k, b"keep;"))
+            else:
+                ops.append((k,))
+        trace = []
+        desc = {"property": "C15", "server": rc.describe(), "ops": [[repr(x) for x in o] for o in ops]}
+        for j, op in enumerate(ops):
+            before = rc.dump()
+            ri, rm, _ = rc.both(op)
+            after = rc.dump()
+            trace.append(ri)
+            report.case((i, j, op), len(ops) > 3)
+            report.count("op:" + op[0])
+            if ri != rm:
+                report.broke("correspondence C15 (session step: model client vs real client)",
+                             "step %d %r impl=%r model=%r" % (j, op, ri, rm), dict(desc, step=j))
+                break
+            head = ri.split(" ")[0]
+            problem = None
+            if after["bad"]:
+                problem = "server received a malformed command or a command in an illegal state"
+            want = abstract_answer(op, before)
+            if isinstance(want, str) and head != want:
+                problem = "client reports %s, server state says %s" % (head, want)
+            if isinstance(want, tuple):
+                got = unhx(head[4:]) if head.startswith("D:b:") else None
+                if got is None or norm_lines(got) != norm_lines(want[1]):
+                    problem = "getscript returned %r, server holds %r" % (got if got is not None else head, want[1])
+            if op[0] in ("putscript", "deletescript", "setactive", "renamescript") and head in ("D:true", "D:false"):
+                changed = (before["store"], before["active"]) != (after["store"], after["active"])
+                if head == "D:false" and changed:
+                    problem = "client reports failure but the server state changed"
+                if head == "D:true" and op[0] == "putscript" and dict(after["store"]).get(op[1]) is None:
+                    problem = "client reports success but the script is not on the server"
+                if head == "D:true" and op[0] == "deletescript" and op[1] in dict(after["store"]):
+                    problem = "client reports success but the script is still on the server"
+            if head.startswith("F:") and head != "F:NotImplementedError":
+                problem = "operation raised %s against a conforming server" % head
+            if problem:
+                report.violation("session step %d %r: %s" % (j, op, problem), dict(desc, step=j, trace=trace))
+                break
+        ms = rc.dump("model")
+        fs = rc.dump()
+        if (ms["store"], ms["active"]) != (fs["store"], fs["active"]) and not report.broken:
+            report.broke("correspondence C15 (final server state)", "impl-side=%r model-side=%r" % (fs, ms), desc)
+        rc.close()
+    drv.close()
+
+
+# ------------------------------------------------------------------ C16
+
+import base64 as _b64
+
+SUPPORTED = [b"DIGEST-MD5", b"PLAIN", b"LOGIN", b"OAUTHBEARER"]
+CRED_ATOMS = ["user", "pässwörd", "a,b", "x=y", 'q"uote', "sp ace", "日本語", "a\\b", "=2C", ",", "=", "u@example.org",
+              "x" * 40, "tok.en-_~+/=="]
+
+
+def expected_mech(announced, authmech):
+    cands = [authmech] if (authmech is not None and authmech in SUPPORTED) else SUPPORTED
+    for m in cands:
+        if m in announced:
+            return m
+    return None
+
+
+def unsaslname(b):
+    out, i = b"", 0
+    while i < len(b):
+        if b[i:i + 3] == b"=2C":
+            out += b","
+            i += 3
+        elif b[i:i + 3] == b"=3D":
+            out += b"="
+            i += 3
+        elif b[i:i + 1] in (b"=", b","):
+            return None
+        else:
+            out += b[i:i + 1]
+            i += 1
+    return out
+
+
+def decode_auth(drv, log):
+    """Parse the AUTHENTICATE exchange out of the write log with the strict parser.
+    Returns (mech, credentials tuple or None, number of AUTHENTICATE commands)."""
+    mech, creds, nauth = None, None, 0
+    conts = []
+    for e in log:
+        if e[0] != "S":
+            continue
+        p = drv.ask("parse_cmd " + hx(e[3]))
+        if p.startswith("cmd "):
+            _, verb, args, rest = p.split(" ")
+            if unhx(verb) == b"AUTHENTICATE":
+                nauth += 1
+                al = [unhx(a[2:]) for a in args.split(",")] if args != "-" else []
+                mech = al[0] if al else None
+                rest_args = al[1:]
+                if mech == b"PLAIN" and len(rest_args) == 1:
+                    try:
+                        raw = _b64.b64decode(rest_args[0], validate=True)
+                        parts = raw.split(b"\0")
+                        creds = tuple(parts) if len(parts) == 3 else None
+                    except Exception:
+                        creds = None
+                elif mech == b"OAUTHBEARER" and len(rest_args) == 1:
+                    try:
+                        raw = _b64.b64decode(rest_args[0], validate=True)
+                        if raw.startswith(b"n,a=") and raw.endswith(b"\x01\x01"):
+                            name, _, tail = raw[4:].partition(b",")
+                            if tail.startswith(b"\x01auth=Bearer "):
+                                creds = (unsaslname(name), tail[len(b"\x01auth=Bearer "):-2])
+                    except Exception:
+                        creds = None
+        elif p.startswith("cont "):
+            conts.append(unhx(p.split(" ")[1]))
+        else:
+            return ("malformed:" + p, None, nauth)
+    if mech == b"LOGIN":
+        try:
+            creds = tuple(_b64.b64decode(c, validate=True) for c in conts) if len(conts) == 2 else None
+        except Exception:
+            creds = None
+    return mech, creds, nauth
+
+
+def check_C16(report, tier, seed, replay=None):
+    rng = common.rng_for(seed, "C16")
+    drv = common.Driver("ms")
+    report.rule = ("announced mechanism lists (all subsets/orders of DIGEST-MD5, PLAIN, LOGIN, OAUTHBEARER mixed with unknown "
+                   "ones, empty) x preferred mechanism (none, each implemented, unknown, lower-case) x unicode credentials "
+                   "(non-ASCII, commas, equals, quotes, spaces, empty or non-empty authorisation id) x server verdict; the "
+                   "AUTHENTICATE exchange written by the real client is parsed by the strict parser and decoded per mechanism; "
+                   "non-trivial = at least two announced mechanisms or non-ASCII/special credentials")
+    pool = [b"DIGEST-MD5", b"PLAIN", b"LOGIN", b"OAUTHBEARER", b"SCRAM-SHA-1", b"GSSAPI", b"X-FOO", b"plain"]
+    n = 500 if tier == "quick" else 12000
+    for i in range(n):
+        k = rng.randrange(0, 5)
+        announced = rng.sample(pool, k)
+        authmech = rng.choice([None, None, b"PLAIN", b"LOGIN", b"OAUTHBEARER", b"DIGEST-MD5", b"X-FOO", b"plain"])
+        login = rng.choice(CRED_ATOMS).encode()
+        pw = rng.choice(CRED_ATOMS).encode()
+        authz = rng.choice(["", "", "admin", "bøss"]).encode()
+        good = rng.random() < 0.6
+        rc = Reactive(drv, rng, sasl_pre=b" ".join(announced), login=login, password=pw if good else pw + b"!",
+                      segment=random_segmenter(rng))
+        op = ("connect", login, pw, authz, False, authmech)
+        ri, rm, detail = rc.both(op)
+        srv = rc.dump()
+        log = list(rc.net.log)
+        rc.close()
+        want = expected_mech(announced, authmech)
+        nontriv = len(announced) >= 2 or not (login + pw).isalnum()
+        report.case((tuple(announced), authmech, login, pw, authz, good), nontriv,
+                    {"announced": [a.decode() for a in announced], "authmech": authmech and authmech.decode(),
+                     "login": login.decode(), "expected_mech": want and want.decode(), "result": ri.split(" ")[0]})
+        report.count("mech:%s" % (want.decode() if want else "none"))
+        desc = {"property": "C16", "server": rc.describe(), "op": [repr(x) for x in op]}
+        if ri != rm:
+            report.broke("correspondence C16 (connect: model vs client)", "impl=%r model=%r (%s)" % (ri, rm, detail), desc)
+        head = ri.split(" ")[0]
+        mech, creds, nauth = decode_auth(drv, log)
+        if want == b"DIGEST-MD5":
+            if head == "F:Crash":
+                report.known_hit("digest-md5-python2")
+                continue
+        problem = None
+        if isinstance(mech, bytes) and mech.startswith(b"malformed"):
+            problem = "malformed bytes on the wire: %r" % mech
+        elif want is None:
+            if nauth != 0:
+                problem = "no mechanism qualifies but AUTHENTICATE %r was sent" % mech
+            elif head != "D:false":
+                problem = "no mechanism qualifies but connect gave %s" % head
+        else:
+            if nauth != 1 or mech != want:
+                problem = "expected one AUTHENTICATE with %r, saw %d with %r" % (want, nauth, mech)
+            else:
+                exp = {b"PLAIN": (authz, login, pw), b"LOGIN": (login, pw), b"OAUTHBEARER": (login, pw)}.get(want)
+                if exp is not None and creds != exp:
+                    problem = "credentials on the wire decode to %r, caller passed %r" % (creds, exp)
+                elif (head == "D:true") != (good and srv["authed"]):
+                    problem = "connect returned %s but server verdict was %s" % (head, srv["authed"])
+                elif head not in ("D:true", "D:false"):
+                    problem = "connect gave %s" % head
+        if problem:
+            report.violation("SASL: %s (announced %r, preferred %r)" % (problem, announced, authmech), desc)
+    drv.close()
+
+
+# ------------------------------------------------------------------ C10
+
+PROBES = [("havespace", b"x", 1), ("listscripts",), ("getscript", b"x"), ("putscript", b"x", b"keep;"),
+          ("checkscript", b"keep;"), ("deletescript", b"x"), ("renamescript", b"x", b"y"), ("setactive", b"x")]
+SCRIPT_VERBS = [b"HAVESPACE", b"LISTSCRIPTS", b"GETSCRIPT", b"PUTSCRIPT", b"CHECKSCRIPT", b"DELETESCRIPT",
+                b"RENAMESCRIPT", b"SETACTIVE"]
+
+
+def first_word(data):
+    return data.split(b" ", 1)[0].split(b"\r", 1)[0].upper()
+
+
+def check_C10(report, tier, seed, replay=None):
+    rng = common.rng_for(seed, "C10")
+    drv = common.Driver("ms")
+    report.rule = ("call histories (script commands before connect, after failed connect, after failed authentication, after "
+                   "success, after a second connect that fails) x server behaviour at each handshake step (OK/NO/BYE/silence, "
+                   "TLS handshake failure, STARTTLS unavailable, plaintext injected after the STARTTLS reply) x capability "
+                   "sets with differing pre-/post-TLS SASL lists; oracle: the reference server's own authenticated flag and "
+                   "the write log tagged plain/TLS; plus the static inventory of Client methods (translator -> Coq obligation)")
+    reps = 1 if tier == "quick" else 8
+
+    def probe_all(rc, label, desc):
+        """Every script command must be refused with Error and write nothing while the server is not authenticated."""
+        for p in PROBES:
+            srv = rc.dump()
+            nlog = len(rc.net.log)
+            ri, rm, _ = rc.both(p)
+            new = [e for e in rc.net.log[nlog:] if e[0] == "S"]
+            report.case((label, p[0], srv["authed"]), True)
+            if rm is not None and ri != rm:
+                report.broke("correspondence C10 (probe after %s)" % label, "op=%r impl=%r model=%r" % (p, ri, rm), desc)
+            if not srv["authed"]:
+                if new or not ri.startswith("F:Error"):
+                    report.violation("%s: %s while the connection is not authenticated wrote %r and gave %s"
+                                     % (label, p[0], [e[3] for e in new], ri.split(" ")[0]), dict(desc, history=label, probe=p[0]))
+                    return
+            else:
+                for e in new:
+                    if first_word(e[3]) in SCRIPT_VERBS and rc.dump()["bad"]:
+                        report.violation("%s: script command rejected by the server as illegal" % label, dict(desc, history=label))
+                        return
+
+    for rep in range(reps):
+        # 1. never connected
+        rc = Reactive(drv, rng)
+        desc = {"property": "C10", "server": rc.describe()}
+        for p in PROBES:
+            ri, _ = rc.sess.call(p)
+            report.case(("never-connected", p[0]), True, {"history": "never connected", "probe": p[0], "result": ri.split(" ")[0]})
+            if rc.net.log or not ri.startswith("F:Error"):
+                report.violation("script command before connect: %s gave %s, wrote %r" % (p[0], ri.split(" ")[0], rc.net.log),
+                                 dict(desc, history="never connected", probe=p[0]))
+        rc.close()
+        # 2. connection refused
+        rc = Reactive(drv, rng, refuse_connect=True)
+        ri, _ = rc.sess.call(("connect", b"user", b"secret", b"", False, None))
+        if not ri.startswith("F:Error"):
+            report.violation("refused connection gave %s" % ri, {"property": "C10", "history": "connection refused"})
+        for p in PROBES:
+            r2, _ = rc.sess.call(p)
+            report.case(("refused", p[0]), True)
+            if rc.net.log or not r2.startswith("F:Error"):
+                report.violation("script command after refused connection: %s" % r2, {"property": "C10", "history": "connection refused"})
+        rc.close()
+        # 3. authentication outcomes without TLS
+        for fault in [None, (0, "no"), (0, "bye"), (0, "silent")]:
+            for good in (True, False):
+                for mech in (b"PLAIN", b"LOGIN", b"OAUTHBEARER"):
+                    fl = [fault] if fault else []
+                    if mech == b"LOGIN" and fault:
+                        fl = [(2, fault[1])]      # the final reply of the LOGIN exchange
+                    rc = Reactive(drv, rng, sasl_pre=mech, password=b"secret" if good else b"other", faults=fl,
+                                  segment=random_segmenter(rng))
+                    desc = {"property": "C10", "server": rc.describe()}
+                    ri, rm, _ = rc.both(("connect", b"user", b"secret", b"", False, None))
+                    label = "connect(%s, fault=%s, good=%s)" % (mech.decode(), fault, good)
+                    report.count("connect:" + ri.split(" ")[0])
+                    if ri != rm:
+                        report.broke("correspondence C10 (%s)" % label, "impl=%r model=%r" % (ri, rm), desc)
+                    srv = rc.dump()
+                    if (ri.startswith("D:true")) != srv["authed"] and fault is None:
+                        report.violation("%s returned %s but the server's authenticated flag is %s" % (label, ri.split(" ")[0], srv["authed"]),
+                                         dict(desc, history=label))
+                    probe_all(rc, label, desc)
+                    # 4. reconnect: a second connect that fails must forget the first one
+                    if good and fault is None:
+                        rc.drv.ask("srv_feed " + hx(b""))  # no-op keeps both servers in step
+                        ri2, rm2, _ = rc.both(("connect", b"user", b"WRONG", b"", False, None))
+                        if ri2 != rm2:
+                            report.broke("correspondence C10 (second connect)", "impl=%r model=%r" % (ri2, rm2), desc)
+                        probe_all(rc, label + " then failing connect", desc)
+                    rc.close()
+        # 5. STARTTLS
+        tls_cases = [
+            ("unavailable", dict(starttls=False), None, False),
+            ("refused", dict(starttls=True, faults=[(0, "no")]), None, False),
+            ("bye", dict(starttls=True, faults=[(0, "bye")]), None, False),
+            ("silent", dict(starttls=True, faults=[(0, "silent")]), None, False),
+            ("handshake-fails", dict(starttls=True, tls_fails=True), None, False),
+            ("ok", dict(starttls=True), b"LOGIN", True),
+            ("ok-auth-no", dict(starttls=True, faults=[(3, "no")]), b"LOGIN", False),
+        ]
+        for name, kw, want_mech, want_ok in tls_cases:
+            rc = Reactive(drv, rng, sasl_pre=b"PLAIN", sasl_post=b"LOGIN", segment=random_segmenter(rng), **kw)
+            desc = {"property": "C10", "server": rc.describe(), "op": "connect(starttls=True)"}
+            ri, rm, detail = rc.both(("connect", b"user", b"secret", b"", True, None))
+            report.case(("tls", name), True, {"history": "connect(starttls=True), STARTTLS " + name, "result": ri.split(" ")[0]})
+            report.count("tls:" + name)
+            if rm is not None and ri != rm:
+                report.broke("correspondence C10 (STARTTLS %s)" % name, "impl=%r model=%r" % (ri, rm), desc)
+            plain_auth = [e for e in rc.net.log if e[0] == "S" and not e[2] and first_word(e[3]) == b"AUTHENTICATE"]
+            tls_auth = [e for e in rc.net.log if e[0] == "S" and e[2] and first_word(e[3]) == b"AUTHENTICATE"]
+            if plain_auth:
+                report.violation("STARTTLS %s: AUTHENTICATE written before the TLS handshake succeeded: %r" % (name, plain_auth[0][3]),
+                                 dict(desc, history="STARTTLS " + name))
+            if want_mech is None:
+                if tls_auth or ri.startswith("D:true"):
+                    report.violation("STARTTLS %s: connect did not fail (%s)" % (name, ri.split(" ")[0]), dict(desc, history="STARTTLS " + name))
+            else:
+                mech, creds, nauth = decode_auth(drv, [e for e in rc.net.log if e[0] == "S" and e[2]])
+                if mech != want_mech:
+                    report.violation("STARTTLS ok: mechanism %r was not chosen from the capabilities announced after the handshake (%r)"
+                                     % (mech, want_mech), dict(desc, history="STARTTLS ok"))
+                if ri.startswith("D:true") != want_ok:
+                    report.violation("STARTTLS %s: connect gave %s" % (name, ri.split(" ")[0]), dict(desc, history="STARTTLS " + name))
+            probe_all(rc, "STARTTLS " + name, desc)
+            rc.close()
+        # 6. plaintext injected together with the STARTTLS reply must not be taken for post-TLS capabilities
+        for chunks in ([b'"SASL" "PLAIN"\r\n"STARTTLS"\r\nOK\r\n', b'OK\r\n"SASL" "PLAIN"\r\nOK\r\n'],
+                       [b'"SASL" "PLAIN"\r\n"STARTTLS"\r\nOK\r\n', b'OK\r\n"SASL" "PLAIN"\r\n', b'OK\r\n']):
+            net = I.Net()
+            sess = I.Session(net)
+            orig_c, orig_w = net.connect, net.wrap
+
+            def connect():
+                s = orig_c()
+                net.queue = [chunks[0]]
+                return s
+
+            def wrap(sock):
+                s = orig_w(sock)
+                net.queue = [b'"SASL" "LOGIN"\r\nOK\r\n', b'OK\r\n']
+                return s
+            net.connect, net.wrap = connect, wrap
+            orig_send = net.send
+
+            def send(data):
+                orig_send(data)
+                if first_word(data) == b"STARTTLS":
+                    net.queue.extend(chunks[1:])
+            net.send = send
+            ri, _ = sess.call(("connect", b"user", b"secret", b"", True, None))
+            auths = [e for e in net.log if e[0] == "S" and first_word(e[3]) == b"AUTHENTICATE"]
+            report.case(("tls-injection", len(chunks)), True, {"history": "plaintext injected after STARTTLS OK", "result": ri.split(" ")[0]})
+            for e in auths:
+                if not e[2] or b'"LOGIN"' not in e[3]:
+                    report.violation("plaintext received before the TLS handshake decided the SASL mechanism: %r" % e[3],
+                                     {"property": "C10", "history": "plaintext injection after STARTTLS", "chunks": [hx(c) for c in chunks]})
+            sess.close()
+    drv.close()
